@@ -25,9 +25,20 @@
 (* are number literals whose spelling is the point ("N1" ..: leading or    *)
 (* trailing zeros, no integer part; the wrapper gives their characters and *)
 (* their value is what ExcelValues!ParseNum reads from them), and cell     *)
-(* references ("A1", "B1") are bound by an environment.  Prefix            *)
+(* references ("A1", "B1", and "Q1" ..: cells of other sheets, whose names  *)
+(* the wrapper gives) are bound by an environment.  Prefix                 *)
 (* minus/plus are the tokens "u-"/"u+" (rendered "-"/"+"): the generator   *)
 (* knows which one it means, the implementation has to find out.           *)
+(*                                                                         *)
+(* Function calls.  SUM( and IF( take values.  ROW( and COLUMN( take a     *)
+(* REFERENCE: what stands between their parentheses is not evaluated to a  *)
+(* value, it denotes a cell.  OFFSET( takes a reference and two values and *)
+(* denotes a reference again; where a value is wanted the cell it denotes  *)
+(* is read.  LEN( takes a value and makes the characters of a text         *)
+(* countable wherever the text stands.  The generator keeps the two kinds  *)
+(* of argument positions apart: in a reference position only a reference   *)
+(* token, a parenthesised reference or OFFSET( may stand, and no operator  *)
+(* applies to it (Excel refuses =ROW(2) and =ROW(-A1) on entry).           *)
 (***************************************************************************)
 EXTENDS ExcelValues, Json
 
@@ -35,7 +46,7 @@ CONSTANTS Operands,   \* set of operand tokens the generator may use
           Binary,     \* set of binary operator tokens  (subset of BinaryOps)
           Prefix,     \* subset of {"u-", "u+"}
           Postfix,    \* subset of {"%"}
-          Calls,      \* subset of {"SUM(", "IF("}
+          Calls,      \* subset of CallToks
           Parens,     \* BOOLEAN: may the generator open a parenthesis
           MaxLen,     \* bound on the number of tokens
           MinExport,  \* export only formulas of at least this many tokens
@@ -44,11 +55,14 @@ CONSTANTS Operands,   \* set of operand tokens the generator may use
                       \* known deviation of the implementation (only used to tell that
                       \* deviation from any other discrepancy, see Deviant below)
           Refs,       \* set of reference tokens
+          RefAt,      \* [reference token -> <<sheet, row, column>>]: the cell it denotes
           Envs        \* sequence of environments [reference token -> value]
 
 VARIABLES toks,       \* the token string so far
-          stk,        \* open brackets, innermost last: "P" parenthesis,
-                      \* "S" SUM( , "I1" "I2" "I3" IF( with that many arguments begun
+          stk,        \* open brackets, innermost last: "P" parenthesis or LEN( ,
+                      \* "S" SUM( , "I1" "I2" "I3" IF( with that many arguments begun,
+                      \* "O1" "O2" "O3" OFFSET( likewise (the first is a reference),
+                      \* "R" ROW( or COLUMN( , "Q" parenthesis around a reference
           out         \* <<>> while the formula is incomplete, else what the
                       \* reference semantics says about it: <<tree, spans of
                       \* sub-expressions, value under each environment,
@@ -61,7 +75,8 @@ vars == <<toks, stk, out>>
 --------------------------------------------------------------------------
 (* the generator *)
 
-Openers == {"(", "SUM(", "IF("}
+CallToks == {"SUM(", "IF(", "ROW(", "COLUMN(", "OFFSET(", "LEN("}
+Openers == {"("} \cup CallToks
 Last == toks[Len(toks)]
 \* the next token must start an operand
 Expect == IF toks = <<>> THEN TRUE
@@ -70,8 +85,8 @@ Expect == IF toks = <<>> THEN TRUE
 \* fewest tokens still needed to reach a complete formula
 RECURSIVE CloseCost(_)
 CloseCost(s) == IF s = <<>> THEN 0
-                ELSE (CASE Head(s) = "I1" -> 5          \* , x , x )
-                        [] Head(s) = "I2" -> 3          \* , x )
+                ELSE (CASE Head(s) \in {"I1", "O1"} -> 5          \* , x , x )
+                        [] Head(s) \in {"I2", "O2"} -> 3          \* , x )
                         [] OTHER -> 1) + CloseCost(Tail(s))
 Room(expect, s) == Len(toks) + 1 + (IF expect THEN 1 ELSE 0) + CloseCost(s) <= MaxLen
 
@@ -79,37 +94,44 @@ Top == stk[Len(stk)]
 Pop == SubSeq(stk, 1, Len(stk) - 1)
 Push(f) == Append(stk, f)
 
+\* the innermost open bracket wants a reference, not a value
+RefPos == IF stk = <<>> THEN FALSE ELSE Top \in {"R", "Q", "O1"}
+\* the frame a call opens
+Frame(f) == CASE f = "SUM(" -> "S" [] f = "IF(" -> "I1" [] f = "OFFSET(" -> "O1"
+              [] f \in {"ROW(", "COLUMN("} -> "R" [] f = "LEN(" -> "P"
+
 AddOperand == /\ Expect
-              /\ \E t \in Operands :
+              /\ \E t \in (IF RefPos THEN Operands \cap Refs ELSE Operands) :
                     /\ Room(FALSE, stk)
                     /\ toks' = Append(toks, t) /\ UNCHANGED stk
-AddPrefix  == /\ Expect
+AddPrefix  == /\ Expect /\ ~RefPos
               /\ \E t \in Prefix :
                     /\ Room(TRUE, stk)
                     /\ toks' = Append(toks, t) /\ UNCHANGED stk
 AddOpen    == /\ Expect /\ Parens
-              /\ Room(TRUE, Push("P"))
-              /\ toks' = Append(toks, "(") /\ stk' = Push("P")
-AddCall    == /\ Expect
-              /\ \E f \in Calls :
-                    LET fr == IF f = "SUM(" THEN "S" ELSE "I1" IN
+              /\ LET fr == IF RefPos THEN "Q" ELSE "P" IN
                     /\ Room(TRUE, Push(fr))
-                    /\ toks' = Append(toks, f) /\ stk' = Push(fr)
-AddPostfix == /\ ~Expect
+                    /\ toks' = Append(toks, "(") /\ stk' = Push(fr)
+AddCall    == /\ Expect
+              /\ \E f \in (IF RefPos THEN Calls \cap {"OFFSET("} ELSE Calls) :
+                    /\ Room(TRUE, Push(Frame(f)))
+                    /\ toks' = Append(toks, f) /\ stk' = Push(Frame(f))
+AddPostfix == /\ ~Expect /\ ~RefPos
               /\ \E t \in Postfix :
                     /\ Room(FALSE, stk)
                     /\ toks' = Append(toks, t) /\ UNCHANGED stk
-AddBinary  == /\ ~Expect
+AddBinary  == /\ ~Expect /\ ~RefPos
               /\ \E t \in Binary :
                     /\ Room(TRUE, stk)
                     /\ toks' = Append(toks, t) /\ UNCHANGED stk
 AddComma   == /\ ~Expect
-              /\ IF stk = <<>> THEN FALSE ELSE Top \in {"S", "I1", "I2"}
+              /\ IF stk = <<>> THEN FALSE ELSE Top \in {"S", "I1", "I2", "O1", "O2"}
               /\ LET fr == CASE Top = "S" -> "S" [] Top = "I1" -> "I2" [] Top = "I2" -> "I3"
+                              [] Top = "O1" -> "O2" [] Top = "O2" -> "O3"
                  IN  /\ Room(TRUE, Append(Pop, fr))
                      /\ toks' = Append(toks, ",") /\ stk' = Append(Pop, fr)
 AddClose   == /\ ~Expect
-              /\ IF stk = <<>> THEN FALSE ELSE Top \in {"P", "S", "I3"}
+              /\ IF stk = <<>> THEN FALSE ELSE Top \in {"P", "S", "I3", "O3", "R", "Q"}
               /\ toks' = Append(toks, ")") /\ stk' = Pop
 
 Append1 == \/ AddOperand \/ AddPrefix \/ AddOpen \/ AddCall
@@ -121,7 +143,8 @@ IsComplete(t, s) == /\ t # <<>> /\ s = <<>>
 Complete == IsComplete(toks, stk)
 
 TypeOK == /\ Len(toks) <= MaxLen
-          /\ \A p \in 1..Len(stk) : stk[p] \in {"P", "S", "I1", "I2", "I3"}
+          /\ \A p \in 1..Len(stk) :
+                stk[p] \in {"P", "S", "I1", "I2", "I3", "O1", "O2", "O3", "R", "Q"}
 
 --------------------------------------------------------------------------
 (* the reference parser: token string -> tree                              *)
@@ -176,7 +199,7 @@ PPrim(t, p) ==
   IF Tok(t, p) = "("
   THEN LET e == PExpr(t, p + 1, 1)               \* t[e.n] = ")"
        IN  [t |-> e.t, n |-> e.n + 1, lo |-> p, sp |-> e.sp \o <<<<p, e.n>>>>]
-  ELSE IF Tok(t, p) \in {"SUM(", "IF("}
+  ELSE IF Tok(t, p) \in CallToks
   THEN LET a == PArgs(t, p + 1, <<>>, <<>>)      \* t[a.n] = ")"
        IN  [t |-> <<"call", t[p], a.t>>, n |-> a.n + 1, lo |-> p,
             sp |-> a.sp \o <<<<p, a.n>>>>]
@@ -251,8 +274,51 @@ SumFrom(vals, p, acc) ==
 RECURSIVE MaxScale(_, _)
 MaxScale(vals, p) == IF p > Len(vals) THEN 0 ELSE Max2(vals[p][3], MaxScale(vals, p + 1))
 
+\* References as what a reference position holds: <<"ref", sheet, row, column>>.
+IsRefV(r) == r[1] = "ref"
+RefV(q) == <<"ref", RefAt[q][1], RefAt[q][2], RefAt[q][3]>>
+REFERR == Err("#REF!")
+\* reading the cell a reference denotes: the environment binds the cells
+\* that have a token; what any other cell holds is not said
+Deref(r, env) == IF \E q \in Refs : RefV(q) = r
+                 THEN env[CHOOSE q \in Refs : RefV(q) = r]
+                 ELSE U("any")
+
+\* the rows / columns argument of OFFSET, a = <<value, exact, scale>>: a whole
+\* number, and a blank cell counts as 0.  How OFFSET reads a fraction (Excel
+\* truncates), a text or a logical belongs to the lookup functions: left open.
+OffN(a) == LET v == a[1] IN
+           IF IsErr(v) \/ IsU(v) THEN v
+           ELSE IF IsBlank(v) THEN Zero
+           ELSE IF IsNumV(v) /\ a[2] /\ IsIntegral(v) THEN v
+           ELSE U("any")
+
 \* lit: the meaning of the literal tokens (Lit, or Lit overridden by LitDev)
-RECURSIVE Ev(_, _, _)
+RECURSIVE Ev(_, _, _), RefEv(_, _, _)
+
+\* what a reference expression denotes: a reference, an error value, or U
+RefEv(x, env, lit) ==
+  CASE x[1] = "lit" /\ x[2] \in Refs -> RefV(x[2])
+    [] x[1] = "call" /\ x[2] = "OFFSET(" ->
+         \* OFFSET(reference, rows, columns): the cell that many rows below
+         \* and columns to the right, #REF! beyond the edge of the sheet; an
+         \* error argument is the result (two different ones: left open)
+         LET base == RefEv(x[3][1], env, lit)
+             dr == OffN(Ev(x[3][2], env, lit))
+             dc == OffN(Ev(x[3][3], env, lit))
+             e1 == IsErr(base)   e2 == IsErr(dr)   e3 == IsErr(dc)
+             anyU == IsU(base) \/ IsU(dr) \/ IsU(dc)
+         IN  IF e1 \/ e2 \/ e3
+             THEN LET first == IF e1 THEN base ELSE IF e2 THEN dr ELSE dc
+                      same == (e1 => base = first) /\ (e2 => dr = first) /\ (e3 => dc = first)
+                  IN  IF same /\ ~anyU THEN first ELSE U("any")
+             ELSE IF anyU THEN U("any")
+             ELSE LET r == base[3] + dr[2]
+                      c == base[4] + dc[2]
+                  IN  IF r < 1 \/ c < 1 \/ r > 1048576 \/ c > 16384 THEN REFERR
+                      ELSE <<"ref", base[2], r, c>>
+    [] OTHER -> U("any")        \* no reference expression (the generator puts none here)
+
 Ev(x, env, lit) ==
   CASE x[1] = "lit" ->
          LET v == IF x[2] \in Refs THEN env[x[2]] ELSE lit[x[2]] IN <<v, Dyadic(v), Mag(v)>>
@@ -287,6 +353,27 @@ Ev(x, env, lit) ==
              ELSE LET truth == IF IsBlank(cv) THEN FALSE ELSE cv[2] # 0
                       br == Ev(x[3][IF truth THEN 2 ELSE 3], env, lit)
                   IN  IF IsBlank(br[1]) THEN <<U("any"), TRUE, 0>> ELSE br
+    [] x[1] = "call" /\ x[2] \in {"ROW(", "COLUMN("} ->
+         \* the row / column number of the cell the argument denotes; the
+         \* cell is not read
+         LET r == RefEv(x[3][1], env, lit)
+             v == IF IsRefV(r) THEN IntV(IF x[2] = "ROW(" THEN r[3] ELSE r[4]) ELSE r
+         IN  <<v, TRUE, Mag(v)>>
+    [] x[1] = "call" /\ x[2] = "OFFSET(" ->
+         \* where a value is wanted the cell is read
+         LET r == RefEv(x, env, lit)
+             v == IF IsRefV(r) THEN Deref(r, env) ELSE r
+         IN  <<v, Dyadic(v), Mag(v)>>
+    [] x[1] = "call" /\ x[2] = "LEN(" ->
+         \* the number of characters of a text (Excel counts a character
+         \* beyond U+FFFF twice: left open).  How a number or a logical is
+         \* rendered before counting belongs to the text functions: left open.
+         LET a == Ev(x[3][1], env, lit)[1]
+             v == IF IsErr(a) \/ IsU(a) THEN a
+                  ELSE IF IsText(a) /\ \A i \in 1..Len(a[2]) : a[2][i] <= 65535
+                  THEN IntV(Len(a[2]))
+                  ELSE U("any")
+         IN  <<v, TRUE, Mag(v)>>
 
 \* a formula that evaluates to a blank cell shows 0
 Shown(v) == IF IsBlank(v) THEN Zero ELSE v
